@@ -249,8 +249,9 @@ class Inliner:
     #     let mut v = Vec::new(); loop { let Some(x) = g() else break; if !p(&x) { break }; match f(x) { Ok(y) => v.push(y), Err(e) => return Err(e) } } Ok(v)
     # It is built as one body (the adaptor objects themselves stay opaque values nobody looks at) and spliced in like a helper.
     STAGES = {"map": 2, "take_while": 2, "filter": 2, "filter_map": 2, "map_while": 2, "inspect": 2, "skip_while": None}
+    SEARCHES = ("find_map", "find", "any", "all", "position")
 
-    def _fn_operand(self, d_caller, inst, raw, fop):
+    def _fn_operand(self, d_caller, inst, raw, fop, any_fn=False):
         """-> (def path, instance id or None, is closure) of the crate function / closure an operand denotes"""
         facts = self.facts
         fdef = None
@@ -260,7 +261,11 @@ class Inliner:
             defs = [s_["rhs"] for b in raw["blocks"] for s_ in b["stmts"] if s_["s"] == "assign" and s_["lhs"] == {"l": fop["pl"]["l"], "p": []}]
             if len(defs) == 1 and defs[0]["rv"] == "agg" and defs[0].get("closure"):
                 fdef = defs[0]["closure"]
-        if fdef is None or fdef not in facts.fns or not facts.fns[fdef].rec.get("local"):
+        if fdef is None:
+            return None
+        if fdef not in facts.fns or not facts.fns[fdef].rec.get("local"):
+            if any_fn and fop.get("k") == "const" and "{closure#" not in fdef:
+                return fdef, None, False                    # a function item of another crate (`str::trim_start`): a plain call
             return None
         is_closure = "{closure#" in fdef
         finst = None
@@ -297,6 +302,8 @@ class Inliner:
                     wrap, elem = None, m.group(1)
         elif name in self.LOOPS and len(t["args"]) == self.LOOPS[name]:
             pass
+        elif name in self.SEARCHES and len(t["args"]) == 2:
+            pass
         else:
             return None
         # the pipeline, from the consumer back to the source
@@ -304,6 +311,13 @@ class Inliner:
             if op.get("k") not in ("copy", "move") or op["pl"]["p"]:
                 return None
             l = op["pl"]["l"]
+            # (`find`, `any` .. take the pipeline by `&mut`: see through the borrow)
+            for _ in range(3):
+                rd_ = [s_["rhs"] for b in raw["blocks"] for s_ in b["stmts"] if s_["s"] == "assign" and s_["lhs"] == {"l": l, "p": []}]
+                if len(rd_) == 1 and rd_[0]["rv"] == "ref" and not rd_[0]["pl"]["p"] and not any(b["term"]["t"] == "call" and b["term"]["dest"] == {"l": l, "p": []} for b in raw["blocks"]):
+                    l = rd_[0]["pl"]["l"]
+                else:
+                    break
             ds = [b["term"] for b in raw["blocks"] if b["term"]["t"] == "call" and b["term"]["dest"] == {"l": l, "p": []}]
             if len(ds) != 1 or any(s_["s"] == "assign" and s_["lhs"]["l"] == l and not s_["lhs"]["p"] for b in raw["blocks"] for s_ in b["stmts"]):
                 return None
@@ -316,7 +330,7 @@ class Inliner:
             if c is None:
                 break
             if c.get("trait") == "std::iter::Iterator" and c.get("name") in self.STAGES and self.STAGES[c["name"]] == len(c["args"]):
-                fo = self._fn_operand(d_caller, inst, raw, c["args"][1])
+                fo = self._fn_operand(d_caller, inst, raw, c["args"][1], any_fn=True)
                 if fo is None:
                     return None
                 stages.append((c["name"], c["args"][1], fo, c.get("gargs") or []))
@@ -329,10 +343,9 @@ class Inliner:
                 src = ("from_fn", c["args"][0], fo, c.get("gargs") or [])
             break
         stages.reverse()
-        if not stages and src is None and name != "collect":
-            return None                                     # (the plain consumers over an opaque iterator: the older builder)
         if not stages and src is None:
-            return None                                     # collecting an iterator nobody built here: nothing to read
+            return None                                     # (the plain consumers over an opaque iterator: the older builder; collecting or
+                                                            # searching an iterator nobody built here: nothing to read)
         line = t.get("line", 0)
         L = lambda ty, nm=None: {"ty": ty, "adt": None, "name": nm, "mut": True}
         pl = lambda l, *proj: {"l": l, "p": list(proj)}
@@ -379,6 +392,12 @@ class Inliner:
                     return None
             INIT = param(acc_ty, t["args"][1], "init") if has_acc else None
             CF = param(f_ty, t["args"][-1], "f")
+        if name in self.SEARCHES:
+            cfo = self._fn_operand(d_caller, inst, raw, t["args"][1])
+            if cfo is None:
+                return None
+            f_ty = gargs[-1] if gargs else "?"
+            CF = param(f_ty, t["args"][1], "f")
         argc = len(locs) - 1
         def tmp(ty, nm=None):
             locs.append(L(ty, nm))
@@ -401,6 +420,8 @@ class Inliner:
             else:
                 call.update(args=ops, arg_tys=["?"] * len(ops), callee=fdef, name=fdef.rsplit("::", 1)[-1])
                 call.pop("trait")
+                if fdef not in facts.fns or not facts.fns[fdef].rec.get("local"):
+                    call.update(res_krate="core", callee_krate="core")
             if finst is not None:
                 call["syn_to"] = finst
             setterm(b, call)
@@ -412,6 +433,11 @@ class Inliner:
             VEC = tmp("std::vec::Vec<%s>" % elem, "vec")
             setterm(ENTRY, {"t": "call", "callee": "std::vec::Vec::<T>::new", "callee_krate": "alloc", "gargs": [elem], "name": "new", "res": "std::vec::Vec::<T>::new", "res_krate": "alloc",
                             "res_kind": "item", "res_name": "std::vec::Vec::<%s>::new" % elem, "args": [], "arg_tys": [], "dest": pl(VEC), "target": HEAD, "unwind": "continue", "fn_exp": False, "syn": True})
+        elif name in self.SEARCHES:
+            if name == "position":
+                IDX = tmp("usize", "i")
+                blocks[ENTRY]["stmts"].append(asg(pl(IDX), use({"k": "const", "ty": "usize", "v": "0_usize"})))
+            setterm(ENTRY, {"t": "goto", "target": HEAD})
         else:
             ACC = tmp(acc_ty, "acc")
             if has_acc:
@@ -492,6 +518,46 @@ class Inliner:
                     blocks[errb]["stmts"].append(asg(pl(0), {"rv": "agg", "agg": "adt", "adt": adt, "variant": "None", "fields": [], "ops": []}))
                 setterm(errb, {"t": "goto", "target": RET})
                 blocks[EXH]["stmts"].append(asg(pl(0), {"rv": "agg", "agg": "adt", "adt": adt, "variant": good, "fields": ["0"], "ops": [mv(VEC)]}))
+        elif name in self.SEARCHES:
+            some = lambda op: {"rv": "agg", "agg": "adt", "adt": "std::option::Option", "variant": "Some", "fields": ["0"], "ops": [op]}
+            none = {"rv": "agg", "agg": "adt", "adt": "std::option::Option", "variant": "None", "fields": [], "ops": []}
+            cbool = lambda v: {"k": "const", "ty": "bool", "v": "true" if v else "false"}
+            after, hit = blk(), blk()
+            if name == "find_map":
+                O, D = tmp(dty), tmp("isize")
+                call_fn(curb, cfo, CF, f_ty, [mv(V)], O, after)
+                blocks[after]["stmts"].append(asg(pl(D), {"rv": "discr", "pl": pl(O), "ty": dty, "adt": "std::option::Option", "variants": OPT_V}))
+                setterm(after, {"t": "switch", "discr": mv(D), "dty": "isize", "targets": [[0, HEAD], [1, hit]], "otherwise": DEAD})
+                blocks[hit]["stmts"].append(asg(pl(0), use(mv(O))))
+                blocks[EXH]["stmts"].append(asg(pl(0), none))
+            else:
+                B = tmp("bool")
+                if name in ("find",):
+                    R = tmp("&?")
+                    blocks[curb]["stmts"].append(asg(pl(R), {"rv": "ref", "mut": False, "pl": pl(V)}))
+                    call_fn(curb, cfo, CF, f_ty, [mv(R)], B, after)
+                else:
+                    call_fn(curb, cfo, CF, f_ty, [mv(V)], B, after)
+                if name == "all":
+                    setterm(after, {"t": "switch", "discr": mv(B), "dty": "bool", "targets": [[0, hit]], "otherwise": HEAD})
+                    blocks[hit]["stmts"].append(asg(pl(0), use(cbool(False))))
+                    blocks[EXH]["stmts"].append(asg(pl(0), use(cbool(True))))
+                else:
+                    miss = blk()
+                    setterm(after, {"t": "switch", "discr": mv(B), "dty": "bool", "targets": [[0, miss]], "otherwise": hit})
+                    if name == "position":
+                        T2 = tmp("usize")
+                        blocks[miss]["stmts"] += [asg(pl(T2), {"rv": "binop", "op": "Add", "a": cp(IDX), "b": {"k": "const", "ty": "usize", "v": "1_usize"}}), asg(pl(IDX), use(mv(T2)))]
+                        blocks[hit]["stmts"].append(asg(pl(0), some(cp(IDX))))
+                        blocks[EXH]["stmts"].append(asg(pl(0), none))
+                    elif name == "find":
+                        blocks[hit]["stmts"].append(asg(pl(0), some(mv(V))))
+                        blocks[EXH]["stmts"].append(asg(pl(0), none))
+                    else:
+                        blocks[hit]["stmts"].append(asg(pl(0), use(cbool(True))))
+                        blocks[EXH]["stmts"].append(asg(pl(0), use(cbool(False))))
+                    setterm(miss, {"t": "goto", "target": HEAD})
+            setterm(hit, {"t": "goto", "target": RET})
         else:
             RES = tmp(r_ty if is_try else acc_ty)
             after = blk()
